@@ -239,7 +239,13 @@ class ExplorerScriptSsbCompiler:
         assert routine_op_offsets_are_ordered(compiler_visitor.routine_ops)
 
         # Copy from listener / remove labels and label jumps
-        label_finalizer = LabelFinalizer(strip_last_label(compiler_visitor.routine_ops))
+        label_finalizer = LabelFinalizer(
+            strip_last_label(
+                compiler_visitor.routine_ops,
+                compiler_visitor.compiler_ctx.counter_ops,
+                compiler_visitor.source_map_builder,
+            )
+        )
 
         self.routine_ops = OpsLabelJumpToRemover(label_finalizer.routines, label_finalizer.label_offsets).routines
         self.routine_infos = compiler_visitor.routine_infos
